@@ -24,7 +24,7 @@ for L in A B C; do
     go test -vet=off -count=1 ./... >/tmp/cs/${ID}${RS}$L.suite.log 2>&1; rc_suite=$?
     echo "$ID-${RS}$L: demo unchanged rc=$rc_base, with change rc=$rc_mut, build rc=$rc_build, suite rc=$rc_suite"
     if [ $rc_base -eq 0 ] && [ $rc_mut -ne 0 ] && [ $rc_build -eq 0 ] && [ $rc_suite -eq 0 ]; then
-      S=/verif/seeded/${ID}${RS}-$L; rm -rf "$S"; mkdir -p "$S/demo"
+      S=${SEEDROOT:-/verif/seeded}/${ID}${RS}-$L; rm -rf "$S"; mkdir -p "$S/demo"
       cp "$OUT/$L.patch.diff" "$S/patch.diff"; cp "$OUT/$L.demo/"* "$S/demo/"; cp "$OUT/$L.notes.md" "$S/notes.md"
       python3 - "$ID" "$L" "$DEST" "$TESTS" "$(git -C /repo rev-parse --short HEAD)" "$RS" <<'PY'
 import json,sys
@@ -32,7 +32,8 @@ pid,l,dest,tests,head,rs=sys.argv[1:7]
 meta={"property":pid,"variant":rs+"-"+l,"round":int(rs[1:]),"demo_dest":dest,"demo_tests":tests.split('|'),"confirmed_at_repo_head":head,
  "what_was_run":[f"git worktree add --detach /tmp/cs/{pid}{rs}{l} HEAD",f"cp demo/*_test.go {dest}/ && go test -vet=off -count=1 -run '^({tests})$' ./{dest}/ -> PASS on the unchanged tree","git apply patch.diff; same go test -> FAIL","demo removed; go build ./... && go test -vet=off -count=1 ./... -> PASS with the change"],
  "needs_to_manifest":"see notes.md (written by the independent sub-agent that authored the change)","detected_by":None}
-json.dump(meta,open(f'/verif/seeded/{pid}{rs}-{l}/meta.json','w'),indent=1)
+import os
+json.dump(meta,open(os.environ.get('SEEDROOT','/verif/seeded')+f'/{pid}{rs}-{l}/meta.json','w'),indent=1)
 PY
       echo "$ID-${RS}$L: CONFIRMED"
     else
